@@ -90,6 +90,8 @@ NOT_INPUT_SITES = {
         "callers pass constants",
     ("fields.PatternFieldFormat.__init__", "re.error", "re.compile(self.pattern, re.IGNORECASE | re.MULTILINE)"):
         "self.pattern is the output of fnmatch.translate, which escapes everything it does not understand",
+    ("fields.PatternFieldFormat.__init__", "builtins.ValueError", "re.compile(self.pattern, re.IGNORECASE | re.MULTILINE)"):
+        "fnmatch.translate escapes '(' and '?', so the compiled text holds no inline flags that could contradict each other",
     ("fields.PatternFieldFormat.__init__", "builtins.OverflowError", "re.compile(self.pattern, re.IGNORECASE | re.MULTILINE)"):
         "fnmatch.translate escapes braces, so the compiled text holds no repetition count that could be too large",
     ("rowio.FixedRowWriter.write_row", "builtins.UnicodeEncodeError", "self._target_stream.write(self._line_separator)"):
